@@ -363,9 +363,15 @@ func (p *Prog) verifyFunction(fn *ssa.Function, spec *FuncSpec) *FuncResult {
 		vc.applyGhostSets(spec, e, pos)
 		e = vc.specEnv(fr, extra)
 		e.old = fr.entrySt
-		for i, en := range spec.Ensures {
-			if t, ok := vc.evalBool(en, e); ok {
-				vc.oblige("post", vc.clauseLabel("ensures", en, i), t, pos, "postcondition: "+en.Src)
+		for i, en0 := range spec.Ensures {
+			for _, en := range conjuncts(en0) {
+				lbl := vc.clauseLabel("ensures", en, i)
+				if en != en0 && en0.Label == "" {
+					lbl = fmt.Sprintf("ensures:%d.%s", i+1, en.Label)
+				}
+				if t, ok := vc.evalBool(en, e); ok {
+					vc.oblige("post", lbl, t, pos, "postcondition: "+en.Src)
+				}
 			}
 		}
 		// locks must not be held at return (unless declared held on entry)
@@ -376,9 +382,37 @@ func (p *Prog) verifyFunction(fn *ssa.Function, spec *FuncSpec) *FuncResult {
 		}
 		vc.cover(fmt.Sprintf("return%d", nret), pos)
 	}
+	vc.ancestors = forwardAncestors(fn)
 	vc.runBody(fr)
 	res.Errors = vc.errs
 	return res
+}
+
+// forwardAncestors computes, for every block, the set of blocks that reach it
+// in the control-flow graph without back edges (itself included).
+func forwardAncestors(fn *ssa.Function) map[int]map[int]bool {
+	anc := map[int]map[int]bool{}
+	var visit func(b *ssa.BasicBlock) map[int]bool
+	visit = func(b *ssa.BasicBlock) map[int]bool {
+		if s, ok := anc[b.Index]; ok {
+			return s
+		}
+		s := map[int]bool{b.Index: true}
+		anc[b.Index] = s
+		for _, p := range b.Preds {
+			if b.Dominates(p) {
+				continue // back edge
+			}
+			for k := range visit(p) {
+				s[k] = true
+			}
+		}
+		return s
+	}
+	for _, b := range fn.Blocks {
+		visit(b)
+	}
+	return anc
 }
 
 // enterHeld models a function that is entered with a lock held: the lock
